@@ -64,7 +64,9 @@
   Note on names: since the library repair F24 `GetMsgSig` first checks that the message is completely parsed (else
   "empty"); the model's `getMsgSig` is that guard in front of `getMsgSigCore`, and every theorem of this file is stated
   about `getMsgSigCore`; `sig_is_core_when_complete`: for a message in the final state (every successfully parsed
-  message: C05 `layout_*`) `getMsgSig = getMsgSigCore`, so they are theorems about GetMsgSig of a parsed message.
+  message: C05 `layout_*`) `getMsgSig = getMsgSigCore`, so they are theorems about GetMsgSig of a parsed message;
+  `sig_guard_transparent(_schedule)`: after a call / any chunk schedule that ends with OK, `getMsgSig = getMsgSigCore`
+  on every buffer — no hypothesis on the object; `sig_guard_transparent_noclen`.
   NOT proved here:
   * no theorem relates two BYTE messages that differ by an inserted / removed / changed header line (that composition —
     C07 / HdrTyped blocks + C11 shifts + `same_view_same_signature_unconditional` — is carried out by the metamorphic oracle);
@@ -101,6 +103,7 @@ import Sipsp.Proofs.SigCompose
 import Sipsp.Proofs.SigChars
 import Sipsp.Proofs.SigCovered
 import Sipsp.Proofs.SigGuard
+import Sipsp.Proofs.SigGuardSafe
 
 namespace Sipsp.C19
 open Sipsp
@@ -781,5 +784,17 @@ theorem sig_is_core_when_complete : type_of% @Sipsp.getMsgSig_complete := @Sipsp
 
 /-- a reply never has a signature -/
 theorem sig_reply_empty : type_of% @Sipsp.getMsgSig_reply_empty := @Sipsp.getMsgSig_reply_empty
+
+/-! ### the completeness guard is transparent for completed messages (proved in `Sipsp.Proofs.SigGuardSafe`) -/
+
+/-- **after OK, GetMsgSig IS the function all the signature theorems are about** (any call, any object, any buffer
+    handed to the signature function) -/
+theorem sig_guard_transparent : type_of% @Sipsp.sig_guard_transparent := @Sipsp.sig_guard_transparent
+
+/-- **every chunk schedule that ends with OK** (any start object, any buffers): GetMsgSig is its core on the result -/
+theorem sig_guard_transparent_schedule : type_of% @Sipsp.sig_guard_transparent_schedule := @Sipsp.sig_guard_transparent_schedule
+
+/-- … and after "Content-Length required but missing" -/
+theorem sig_guard_transparent_noclen : type_of% @Sipsp.sig_guard_transparent_noCLen := @Sipsp.sig_guard_transparent_noCLen
 
 end Sipsp.C19
